@@ -9,6 +9,7 @@ PickEv == LET n == Len(h.evs) IN
           IF n <= 2 THEN RandomElement(1..n)
           ELSE IF RandomElement({0, 1}) = 0 THEN RandomElement((n - 1)..n) ELSE RandomElement(1..n)
 SimNext ==
+  \/ (\E nw \in BOOLEAN : Conflict(nw))
   \/ ExtSet \/ ExtDelete \/ ExtUx \/ SGMeta \/ Get \/ GetBegin \/ GetRel \/ Write \/ WriteBegin \/ WriteRel \/ FeedRel
   \/ (Len(h.evs) > 0 /\ Feed(PickEv))
   \/ (Len(h.evs) > 0 /\ FeedBegin(PickEv))
